@@ -101,7 +101,7 @@ def run(ctx):
     if K.build_hx(ctx) and K.build_drv(ctx):
         args = S.drv_args(facts)
         try:
-            c = K.correspondence(ctx, "C04", args, hx_env={"HX_C04_SIDE": side_path}, timeout=900)
+            c = K.correspondence(ctx, "C04", args, hx_env={"HX_C04_SIDE": side_path}, timeout=3000)
         except Exception as e:  # a hung generator/run is a finding about the code, not a machinery error
             c = K.Corr()
             c.err = "harness did not finish: %r" % (e,)
